@@ -279,35 +279,70 @@ func Check(reg *Registry, property, tier, verifDir string) int {
 		exit = 2
 	}
 	if len(fresh) > 0 && exit == 0 {
-		f := fresh[0]
-		fmt.Printf("violation in run %d of %s (seed %d): %s %s %s: %s\n", f.line.I, f.line.Scenario, f.line.Seed, f.v.Property, f.v.Oracle, f.v.Key, f.v.Detail)
-		sc := reg.Scenarios[f.line.Scenario]
+		// A violation is reported with a replay file that reproduces it in a fresh process. When the
+		// code under test carries state from one run to the next inside a worker process (a poisoned
+		// package-level variable), a plan - and above all a plan shrunk inside such a process - may
+		// fail only there: fall back from the shrunk plan to the original one, then to the next
+		// violating runs, before calling it harness trouble.
+		verify := func(path string) (bool, []string, string) {
+			var hashes []string
+			for k := 0; k < 2; k++ {
+				out, _ := exec.Command(self, "replay", "--quiet", path).CombinedOutput()
+				m := regexp.MustCompile(`REPLAY class=(\S+) log_hash=(\S+) reproduced=(\S+)`).FindStringSubmatch(string(out))
+				if m == nil || m[3] != "true" {
+					return false, nil, strings.TrimSpace(string(out))
+				}
+				hashes = append(hashes, m[2])
+			}
+			return true, hashes, ""
+		}
 		shrinkCap := 3 * time.Minute
 		if tier == "thorough" {
 			shrinkCap = 8 * time.Minute
 		}
-		min := Shrink(sc, *f.line.Plan, f.v.Class(), shrinkCap, reg.UnstableSUT[property])
 		os.MkdirAll(filepath.Join(outDir, "replays"), 0o755)
-		replayPath = filepath.Join(outDir, "replays", fmt.Sprintf("%s-%d-%d.json", property, base, f.line.I))
-		rf := ReplayFile{Property: property, Class: f.v.Class(), Seed: f.line.Seed, RunIndex: f.line.I, Plan: min, Detail: f.v.Detail}
-		if err := os.WriteFile(replayPath, MustJSONIndent(rf), 0o644); err != nil {
-			fmt.Fprintf(os.Stderr, "write replay: %v\n", err)
-			return 2
-		}
-		// verify the replay twice in fresh processes
-		var hashes []string
-		for k := 0; k < 2; k++ {
-			out, _ := exec.Command(self, "replay", "--quiet", replayPath).CombinedOutput()
-			m := regexp.MustCompile(`REPLAY class=(\S+) log_hash=(\S+) reproduced=(\S+)`).FindStringSubmatch(string(out))
-			if m == nil || m[3] != "true" {
-				fmt.Fprintf(os.Stderr, "HARNESS: replay %s did not reproduce: %s\n", replayPath, strings.TrimSpace(string(out)))
-				exit = 2
+		reported, lastOut := false, ""
+		seenRun := map[string]bool{}
+		tried := 0
+		for _, f := range fresh {
+			rk := fmt.Sprintf("%s/%d", f.line.Scenario, f.line.I)
+			if seenRun[rk] || tried >= 6 {
+				continue
+			}
+			seenRun[rk] = true
+			tried++
+			fmt.Printf("violation in run %d of %s (seed %d): %s %s %s: %s\n", f.line.I, f.line.Scenario, f.line.Seed, f.v.Property, f.v.Oracle, f.v.Key, f.v.Detail)
+			sc := reg.Scenarios[f.line.Scenario]
+			replayPath = filepath.Join(outDir, "replays", fmt.Sprintf("%s-%d-%d.json", property, base, f.line.I))
+			plans := []Plan{*f.line.Plan}
+			if tried == 1 {
+				plans = []Plan{Shrink(sc, *f.line.Plan, f.v.Class(), shrinkCap, reg.UnstableSUT[property]), *f.line.Plan}
+			}
+			for pi, pl := range plans {
+				rf := ReplayFile{Property: property, Class: f.v.Class(), Seed: f.line.Seed, RunIndex: f.line.I, Plan: pl, Detail: f.v.Detail}
+				if err := os.WriteFile(replayPath, MustJSONIndent(rf), 0o644); err != nil {
+					fmt.Fprintf(os.Stderr, "write replay: %v\n", err)
+					return 2
+				}
+				ok, hashes, out := verify(replayPath)
+				if !ok {
+					lastOut = out
+					fmt.Fprintf(os.Stderr, "note: replay %s (plan %d) did not reproduce in a fresh process: %s\n", replayPath, pi, out)
+					continue
+				}
+				if hashes[0] != hashes[1] && reg.UnstableSUT[property] == 0 {
+					fmt.Fprintf(os.Stderr, "HARNESS: replay fingerprints differ (%s vs %s): harness nondeterminism\n", hashes[0], hashes[1])
+					exit = 2
+				}
+				reported = true
 				break
 			}
-			hashes = append(hashes, m[2])
+			if reported || exit != 0 {
+				break
+			}
 		}
-		if exit == 0 && hashes[0] != hashes[1] && reg.UnstableSUT[property] == 0 {
-			fmt.Fprintf(os.Stderr, "HARNESS: replay fingerprints differ (%s vs %s): harness nondeterminism\n", hashes[0], hashes[1])
+		if !reported && exit == 0 {
+			fmt.Fprintf(os.Stderr, "HARNESS: no violating run reproduced in a fresh process (last: %s)\n", lastOut)
 			exit = 2
 		}
 		if exit == 0 {
